@@ -175,6 +175,57 @@ def run(chk):
                     v, d = UNDECIDED, e.cause
                 chk.add("C10.S", key, v, d, where=where_of(pubs[name]),
                         sample=dict(obligation=key, verdict=v, uninterpreted=[u[0] for u in res.get("dyn", ([], []))[1]][:2]) if len(chk.samples) < 10 and n == 4 else None)
+    # ------------------------------------------------------------------ C10.S for trait impls (operators, order, equality, text)
+    from ..absint import new_cell
+    DIFF_TRAITS = ("std::cmp::Ord", "std::cmp::PartialOrd", "std::cmp::PartialEq", "std::ops::", "std::fmt::Display", "std::fmt::LowerHex", "std::fmt::Binary", "std::default::Default", "std::clone::Clone")
+    for k in sorted(set(td) & set(ts), key=str):
+        if not any(k[0].startswith(p_) for p_ in DIFF_TRAITS):
+            continue
+        for n in ((0, 2, 5, 6, 7, 8) if chk.tier == "quick" else range(0, nmax + 1)):
+            if k[0] == "std::default::Default" and n != 0:
+                continue
+            key = "impl %s%s %s::%s n=%d" % (k[1], k[0], ",".join(k[2]), k[3], n)
+            res = {}
+            try:
+                for kind, bd in (("dyn", td[k]), ("static", ts[k])):
+                    K = env.kinds[kind]
+                    it = env.interp(max_paths=1024)
+                    it.uf_fallback = True
+                    st = State()
+                    args, muts, names = [], [], ["a", "b"]
+                    fcell = None
+                    for ty in bd["sig"]["inputs"]:
+                        if ty["k"] == "ref" and ty["t"].get("path") == "std::fmt::Formatter":
+                            fcell = new_cell()
+                            st.mem[fcell] = Opaque("formatter", ((),))
+                            args.append(Ptr(fcell, ()))
+                            continue
+                        v_, m_ = build_by_type(env, kind, ty, n, st, names, 1)
+                        args.append(v_)
+                        muts += m_
+                    outs = it.call_body(bd, args, st, K.env(n) if kind == "static" else {})
+                    rs = []
+                    for o in outs:
+                        s_, w_ = pc_status(o.pc)
+                        if s_ == "unsat":
+                            continue
+                        pcs = tuple(canon(c_, it, o.state, shape=shape) for c_ in o.pc if not (isinstance(c_, W) and c_.val is not None))
+                        if o.kind == "panic":
+                            rs.append(("panic", pcs))
+                        else:
+                            extra = canon(it.read_ptr(o.state, Ptr(fcell, ())), it, o.state, shape=shape) if fcell is not None else None
+                            rs.append(("return", pcs, canon(o.value, it, o.state, shape=shape), tuple(canon(it.read_ptr(o.state, m), it, o.state, shape=shape) for m in muts if not isinstance(m, tuple)), extra))
+                    res[kind] = rs
+                rd, rs_ = strip_nv(res["dyn"], n if k[0] != "std::default::Default" else 0), strip_nv(res["static"], n)
+                if rd == rs_:
+                    v, d = PROVED, ""
+                elif has_top(tuple(rd)) or has_top(tuple(rs_)):
+                    v, d = UNDECIDED, "abstract results contain top"
+                else:
+                    v, d = REFUTED, "Lut and StaticLut give different abstract results: %s" % first_diff(rd, rs_)
+            except Undecided as e:
+                v, d = UNDECIDED, e.cause
+            chk.add("C10.S", key, v, d, where=where_of(ts[k]))
     # ------------------------------------------------------------------ C10.C conversions
     for b, sty, tr in facts.trait_impl_methods("std::convert::"):
         label = "<%s as %s>::%s" % (sty["s"], tr["s"], b["name"])
